@@ -475,6 +475,20 @@ def run_cases(cases, tag, header="", batch_size=60, runnable=True, metadata_only
     return globs, notes
 
 
+def blame(case):
+    """For a case that failed to compile: ('macro', diag) if some error is located in derive_ex's output or is a
+    message of derive_ex itself (compile_error!, no error code); ('harness', diag) otherwise - then the generated
+    program itself is at fault and the case is inconclusive, never a violation."""
+    errs = [d for d in case.diags if d["level"] == "error"]
+    for d in errs:
+        if d["in_derive_ex"]:
+            return "macro", d
+    for d in errs:
+        if d["code"] is None and not (d["message"] or "").startswith(("cannot find", "expected", "unresolved", "mismatched closing")):
+            return "macro", d
+    return "harness", (errs[0] if errs else {"message": "?", "code": None})
+
+
 def _scratch():
     d = os.path.join(CACHE, "scratch")
     os.makedirs(d, exist_ok=True)
